@@ -40,6 +40,11 @@ pub fn reference_sample(case: &Case, kin: &oracle::kin::Kin, x: &[f64]) -> Resul
     let d2 = case.g.dim as f64 / 2.0;
     let (lut, lft) = refsampler::ln_trop(&case.comb, &case.fpoly, &rr.ln_x);
     let lvt = lft - lut;
+    // G4: the implementation forms the tropical values before rescaling; below 1e-280 they are subnormal
+    let lmin = rr.ln_x.iter().cloned().fold(f64::INFINITY, f64::min);
+    if lut < -640.0 || lmin < -640.0 || lvt < -640.0 || lvt > 640.0 {
+        return Err("G4_underflow_before_rescaling");
+    }
     let ln_s = -(d2 * lut + case.dod * lvt) / (d2 * case.nl as f64 + case.dod);
     let xs: Vec<f64> = rr.ln_x.iter().map(|l| libm::exp(l + ln_s)).collect();
     if !xs.iter().all(|v| v.is_finite() && *v >= 1e-140 && *v <= 1e140) {
@@ -81,6 +86,7 @@ pub fn c01_point(case: &Case, r: &Routed, x: &[f64], acc: &mut Acc) {
     let st = Settings::DEFAULT;
     let out = r.sampler.sample(x, &r.ed, &st);
     acc.inc("executions");
+    acc.add("answers_consumed", x.len() as u64);
     let s = match &out {
         Outcome::Ok(s) => s,
         Outcome::Panic(p) => {
@@ -180,7 +186,7 @@ fn tadpole_anchor(tier: Tier, acc: &mut Acc) {
                     Err(_) => continue,
                 };
                 let want = libm::pow(std::f64::consts::PI, d as f64 / 2.0) * ogamma(nu - d as f64 / 2.0) / ogamma(nu) * libm::pow(mf, d as f64 - 2.0 * nu);
-                let roles = Roles { u: false, xi: false, p: true, ab: true, xi_moderate: true };
+                let roles = Roles { u: false, xi: false, p: true, ab: true, xi_moderate: true, xi_ladder: false };
                 let order = vec![0usize];
                 let pts: Vec<Vec<f64>> = match sector_full_product(&case, &order, &roles, tier.pick(20000, 400000)) {
                     Some(p) => p,
@@ -213,7 +219,7 @@ pub fn run(ctx: &Ctx) -> i32 {
     let tier = ctx.tier;
     let mut cases = fam_for(tier, "C01");
     cases.extend(dl_grid_cases().into_iter().filter(|c| c.g.loop_number(c.g.full()) <= 3 && c.g.dim <= 4));
-    let roles = Roles { u: true, xi: true, p: true, ab: true, xi_moderate: true };
+    let roles = Roles { u: true, xi: true, p: true, ab: true, xi_moderate: true, xi_ladder: false };
     let k = tier.pick(1, 2);
     let mut acc = par_for(cases.len(), |i, acc| {
         let case = match Case::new(&cases[i]) {
@@ -263,7 +269,7 @@ pub fn run(ctx: &Ctx) -> i32 {
         level: "model_checking",
         rule: format!("(1) stateless exploration of the production path (default settings): every sector in budget, every answer sequence with <= {k} deviations over all roles, in the base routing and the sector's tropical routing; each execution's jacobian and loop momenta are compared with a reference sampler assembled only from oracle pieces (own table and sector, own kappas via libm, exact U and F, own normalisation, own Gamma quantile by bisection, own Box-Muller); (2) exact closed-form anchors: massive tadpole for D=1..6 x 3 weights x 3 masses on the full alphabet product, where the jacobian is constant so its mean equals its value. states = executions, transitions = answers consumed; non-trivial = executions judged"),
         states: acc.get("executions") + acc.get("anchor_executions"),
-        transitions: (acc.get("executions") + acc.get("anchor_executions")) * 3,
+        transitions: acc.get("answers_consumed") + acc.get("anchor_executions"),
         traces: acc.get("points_judged") + acc.get("anchor_executions"),
         evaluations: acc.get("executions") + acc.get("anchor_executions"),
         distinct_nontrivial: acc.get("points_judged"),
